@@ -104,11 +104,14 @@ def reference_graph(spec):
         g = parallel_graph()
     elif kind == "connector":
         g = connector_graph()
+    elif kind == "unlabelled":
+        g = unlabelled_graph()
     else:
         raise ValueError(spec)
+    default = float(spec[1]) if kind == "unlabelled" else 40.0  # the network's default speed for streets without a label
     for u, v, d in g.edges(data=True):
         if "travel_time" not in d:
-            d["travel_time"] = d["length"] / 1000.0 / float(d.get("speed_kmph", 40.0)) * 3600.0
+            d["travel_time"] = d["length"] / 1000.0 / float(d.get("speed_kmph", default)) * 3600.0
     return g
 
 
@@ -163,6 +166,8 @@ def build(spec) -> object:
         return OSMRoadNetwork(parallel_graph(), sim_h3_resolution=15)
     if kind == "connector":
         return OSMRoadNetwork(connector_graph(), sim_h3_resolution=spec[1] if len(spec) > 1 else 12)
+    if kind == "unlabelled":
+        return OSMRoadNetwork(unlabelled_graph(), sim_h3_resolution=15, default_speed_kmph=float(spec[1]))
     raise ValueError(spec)
 
 
@@ -177,6 +182,43 @@ def link_positions(rn, link_id: str, which=("start", "second", "middle", "penult
             seen.add(c)
             out.append(EntityPosition(link_id, c))
     return out
+
+
+def stopping_positions(rn, link_id: str, parts: int = 7) -> List[EntityPosition]:
+    """the cells at which a vehicle driving this link really comes to rest when a time step ends on it: the library's own
+    H3Ops.point_along_link (linear in lat/lon), which does not always pick a cell of the link's h3_line (linear on the grid)"""
+    from nrel.hive.util.h3_ops import H3Ops
+
+    link = rn.link_from_link_id(link_id)
+    lt = link.to_link_traversal()
+    total = lt.distance_km / lt.speed_kmph * 3600.0
+    seen, out = set(), []
+    for k in range(1, parts):
+        c = H3Ops.point_along_link(lt, total * k / parts)
+        if c not in seen and c not in (link.start, link.end):
+            seen.add(c)
+            out.append(EntityPosition(link_id, c))
+    return out
+
+
+def unlabelled_graph():
+    """a block in which the direct street 0-1 (1 km) carries NO speed label -- it gets the network's default speed -- and a
+    labelled detour 0-2-1 (1.2 km at 30 km/h = 144 s) goes round it: which of the two is fastest depends on the default"""
+    nodes = {0: (0.0, 0.0), 1: (1.0, 0.0), 2: (0.5, 0.33), 3: (0.5, -0.4)}
+    g = _graph(nodes, [])
+    def add(u, v, sp, lf=1.0):
+        a, b = g.nodes[u], g.nodes[v]
+        d = dict(length=hav_m(a["y"], a["x"], b["y"], b["x"]) * lf)
+        if sp is not None:
+            d["speed_kmph"] = float(sp)
+        g.add_edge(u, v, **d)
+    for u, v in ((0, 1), (1, 0)):
+        add(u, v, None)
+    for u, v in ((0, 2), (2, 0), (2, 1), (1, 2)):
+        add(u, v, 30)
+    for u, v in ((0, 3), (3, 0), (3, 1), (1, 3)):
+        add(u, v, 60, 1.2)
+    return g
 
 
 def dijkstra(graph, source) -> Dict[int, float]:
